@@ -4,7 +4,7 @@ import os
 import re
 from collections import Counter
 
-from engine import callee_def, callee_names, iter_operands, Tracer, EdgeFacts, find_calls
+from engine import callee_def, callee_names, iter_operands, Tracer, EdgeFacts, find_calls, pl_str
 
 HERE = os.path.dirname(os.path.abspath(__file__))
 TABLE = os.path.join(os.path.dirname(HERE), "tables", "panic_sites.json")
@@ -53,6 +53,82 @@ def generated(sp):
     return False
 
 
+def src_of(body, op, depth=0):
+    """canonical source of an operand: looks through compiler temporaries to the place / constant / len() they copy"""
+    if op["k"] == "const":
+        return ("c", str(op.get("v")))
+    pl = op["pl"]
+    if not pl["p"] and not body.local_name(pl["l"]) and depth < 8:
+        ds = [d for d in body.defs.get(pl["l"], []) if not d[2]]
+        if len(ds) == 1:
+            rv = ds[0][3]
+            if rv["k"] == "use":
+                return src_of(body, rv["op"], depth + 1)
+            if rv["k"] == "ref":
+                return ("p", pl_str(rv["pl"]))
+            if rv["k"] == "call":
+                t = rv["t"]
+                if callee_def(t).endswith("::len") and t["args"]:
+                    return ("len", src_of(body, t["args"][0], depth + 1))
+    return ("p", pl_str(pl))
+
+
+def cmp_of(body, op, depth=0):
+    """(op, lhs, rhs, negated) when a switch operand is a comparison (possibly negated / copied)"""
+    if op["k"] == "const" or op["pl"]["p"] or depth > 6:
+        return None
+    ds = [d for d in body.defs.get(op["pl"]["l"], []) if not d[2]]
+    if len(ds) != 1:
+        return None
+    rv = ds[0][3]
+    if rv["k"] == "bin" and rv["op"] in ("Lt", "Le", "Gt", "Ge"):
+        return (rv["op"], src_of(body, rv["l"]), src_of(body, rv["r"]), False)
+    if rv["k"] == "un" and rv["op"] == "Not":
+        c = cmp_of(body, rv["a"], depth + 1)
+        return (c[0], c[1], c[2], not c[3]) if c else None
+    if rv["k"] == "use":
+        return cmp_of(body, rv["op"], depth + 1)
+    return None
+
+
+# (op, operands in (L,R) order?, truth) combinations that establish L >= R
+_GE = {("Gt", True, True), ("Ge", True, True), ("Lt", False, True), ("Le", False, True),
+       ("Le", True, False), ("Lt", True, False), ("Gt", False, False), ("Ge", False, False)}
+
+
+def sub_guarded(body, bb, t):
+    """the checked subtraction l - r at bb is dominated by the edge of a comparison that establishes l >= r (same source places)"""
+    L, R = src_of(body, t["l"]), src_of(body, t["r"])
+    if L[0] == "c" and R[0] == "c":
+        return False
+    for sb in sorted(body.reachable):
+        st = body.term(sb)
+        if st["k"] != "switch" or sb == bb or not body.dominates(sb, bb):
+            continue
+        c = cmp_of(body, st["op"])
+        if not c:
+            continue
+        op, a, b, neg = c
+        if (a, b) == (L, R):
+            fwd = True
+        elif (a, b) == (R, L):
+            fwd = False
+        else:
+            continue
+        edges = [(v != "0", tgt) for v, tgt in st["targets"]]
+        if len(st["targets"]) == 1:
+            edges.append((st["targets"][0][0] == "0", st["otherwise"]))
+        for truth, tgt in edges:
+            if tgt == sb or not body.dominates(tgt, bb):
+                continue
+            # an edge target with other predecessors is not implied by the edge
+            if len(body.pred[tgt]) != 1:
+                continue
+            if (op, fwd, truth != neg) in _GE:
+                return True
+    return False
+
+
 def sites_of(crate, body):
     """yield (kind, detail, bb) for every panic-capable site of one body"""
     if body.kind == "const":
@@ -74,7 +150,8 @@ def sites_of(crate, body):
                 signed_or_wide = lty.startswith("i") or lty in ("u128",)
                 const_rhs = t.get("r", {}).get("k") == "const"
                 if signed_or_wide or bop in ("Sub", "Mul", "Shl", "Shr") or (bop == "Add" and not const_rhs):
-                    yield ("K4", "%s %s" % (bop, lty), bb)
+                    g = " [dominated by l>=r]" if (bop == "Sub" and not signed_or_wide and sub_guarded(body, bb, t)) else ""
+                    yield ("K4", "%s %s%s" % (bop, lty, g), bb)
         elif t["k"] == "call":
             if generated(t.get("sp")):
                 continue
@@ -99,6 +176,9 @@ def sites_of(crate, body):
                 continue
             if any(K6.search(n) for n in names):
                 if cd.endswith("::with_capacity") and t["args"] and t["args"][0]["k"] == "const":
+                    continue
+                # capacity = len() of a value already in memory: cannot exceed the address space (same reason as the reviewed rows)
+                if cd.endswith("::with_capacity") and t["args"] and src_of(body, t["args"][-1])[0] == "len":
                     continue
                 yield ("K6", cd.rsplit("::", 2)[-2][-30:] + "::" + cd.rsplit("::", 1)[-1], bb)
 
